@@ -161,14 +161,14 @@ Section Last.
     nth_opt hs i = Some a -> nth_opt hs j = Some b ->
     nth_opt (handle_cterms terms ops) i = Some ti -> nth_opt (handle_cterms terms ops) j = Some tj ->
     eg_eq s a b = Ok true -> Deriv (asserted terms ops) 0 ti tj.
-  Proof. exact (equality_sound_x syn_cov kids_cov xinv_cov HSh_red_x_proved HC_sim HD_sim_x_proved HS_readd_x_proved). Qed.
+  Proof. exact (equality_sound_x syn_cov kids_cov xinv_cov HSh_red_x_proved (spec_HC_sim_y_of_x _ _ HC_sim) HD_sim_x_proved HS_readd_x_proved). Qed.
 
   Theorem equality_sound_insertion_only_HC : forall terms ops hs s i j a b ti tj, Forall rt_ok terms -> Forall rt_wf terms ->
     adds_only ops -> run_ops terms ops [] empty_egraph = Ok (hs, s) ->
     nth_opt hs i = Some a -> nth_opt hs j = Some b ->
     nth_opt (handle_cterms terms ops) i = Some ti -> nth_opt (handle_cterms terms ops) j = Some tj ->
     eg_eq s a b = Ok true -> ti = tj.
-  Proof. exact (equality_sound_insertion_only_x syn_cov kids_cov xinv_cov HSh_red_x_proved HC_sim HD_sim_x_proved HS_readd_x_proved). Qed.
+  Proof. exact (equality_sound_insertion_only_x syn_cov kids_cov xinv_cov HSh_red_x_proved (spec_HC_sim_y_of_x _ _ HC_sim) HD_sim_x_proved HS_readd_x_proved). Qed.
 End Last.
 
 Print Assumptions xinv_cov.
@@ -252,9 +252,9 @@ Check equality_sound_guarded_ok.
      KeyInv.run_ops_g, NO hypothesis (SoundGuard.equality_sound_g_x instantiated);
      equality_sound_guarded_ok: the same about run_ops under the executable premise
      SoundGuard.guarded_ok terms ops = true.
-   OPEN: spec_HC_sim_x syn_cov itself, i.e. that the guard of handle_congruence_g never fires in a reachable
-   state (KeyInv.v: reduced to the key invariant key_inv and two idempotence facts of `shape`;
-   SoundCongAll.HC_sim_key). *)
+   spec_HC_sim_x syn_cov itself is not proved for arbitrary states; EGraph/SoundClosed.v proves the call-site
+   form SoundPending.spec_HC_sim_y for the run invariants SC2 / KC2 (key invariant KS) and from it the
+   unconditional `equality_sound_all`. *)
 
 (* the premise of equality_sound_guarded_ok is evaluated per run; e.g. on the recorded histories of
    SoundPending.v *)
